@@ -77,7 +77,9 @@ pub struct Harness {
   /// bit0 free block a (40 bytes), bit1 free block c (56 or 40 bytes), bit2 leave 24 bytes of fresh
   /// space, bit3 block c is 56 bytes instead of 40, bit4 also free a third block e (24 bytes),
   /// bit5 the free block e is the last thing below the cursor (the filler is allocated first and an 8-byte
-  /// tail block behind e is released last), with 8 bytes (+ bit2 / `leave`) of fresh space behind it
+  /// tail block behind e is released last), with 8 bytes (+ bit2 / `leave`) of fresh space behind it;
+  /// bit6: the arena is cleared after all that (the threads start on a used-and-cleared arena, nothing is live);
+  /// bit7: `rewind(End(leave / 2))` before the threads start (a forward seek: gives nothing back)
   pub shape: u8,
   pub progs: Vec<Vec<TOp>>,
   /// every logical thread owns its own clone and drops it at the end (teardown inside the schedule)
@@ -89,6 +91,9 @@ pub struct Harness {
   /// starts at this residue mod 8
   #[serde(default)]
   pub odd: u8,
+  /// reserved prefix of the arena (filled with a pattern that must survive)
+  #[serde(default)]
+  pub reserved: u32,
 }
 
 #[derive(Clone, Copy, PartialEq, Debug)]
@@ -1055,8 +1060,13 @@ fn capture_image(e: &Eng) {
 
 pub fn run_one(h: &Harness, prefix: &[u8], o: &ExecOpts) -> ExecOut {
   let n = h.progs.len();
-  let cfg = Cfg { fl: h.fl, backend: Backend::Vec, unify: h.unify, reserved: 0, min_seg: h.min_seg, max_align: 16, cap: h.cap, magic: 0, file_offset: 0, retries: 5 };
-  let arena: Arena = Options::new().with_capacity(h.cap).with_unify(h.unify).with_freelist(h.fl.to()).with_minimum_segment_size(h.min_seg).with_maximum_alignment(16).alloc::<Arena>().expect("arena");
+  let cfg = Cfg { fl: h.fl, backend: Backend::Vec, unify: h.unify, reserved: h.reserved, min_seg: h.min_seg, max_align: 16, cap: h.cap, magic: 0, file_offset: 0, retries: 5 };
+  let arena: Arena = Options::new().with_capacity(h.cap).with_unify(h.unify).with_freelist(h.fl.to()).with_minimum_segment_size(h.min_seg).with_maximum_alignment(16).with_reserved(h.reserved).alloc::<Arena>().expect("arena");
+  if h.reserved > 0 {
+    for (i, b) in unsafe { arena.reserved_slice_mut() }.iter_mut().enumerate() {
+      *b = 0xE0 | (i as u8 & 0x0f);
+    }
+  }
   let dof = cfg.data_offset();
   let base = arena.raw_mut_ptr();
   // ---- initial shape (no hook installed: not part of the schedule)
@@ -1121,6 +1131,17 @@ pub fn run_one(h: &Harness, prefix: &[u8], o: &ExecOpts) -> ExecOut {
   if let Some(x) = tail_x {
     // released as the last allocation: the cursor moves back to the end of the free block e
     unsafe { arena.dealloc(x.2 as u32, x.3 as u32) };
+  }
+  // ---- optional last steps of the initialising thread
+  if h.shape & 64 != 0 {
+    // a used arena is cleared: nothing is live any more, the threads start from scratch
+    unsafe { arena.clear().expect("clear") };
+    live.clear();
+    pre.clear();
+  }
+  if h.shape & 128 != 0 && h.leave > 0 {
+    // a forward seek of the cursor: skips fresh space, gives nothing back
+    unsafe { arena.rewind(rarena_allocator::ArenaPosition::End(h.leave / 2)) };
   }
   if let Some(hb) = hb.as_mut() {
     // everything the initialising thread did happens-before the start of every logical thread
@@ -1238,6 +1259,13 @@ pub fn run_one(h: &Harness, prefix: &[u8], o: &ExecOpts) -> ExecOut {
       let lives = ENG.with(|e| e.borrow().live.clone());
       for l in &lives {
         check_pat(&sh, l, "at the end");
+      }
+      if h.reserved > 0 {
+        // the caller's reserved bytes belong to nobody else
+        let rs = unsafe { std::slice::from_raw_parts(base as *const u8, h.reserved as usize) };
+        if let Some(i) = rs.iter().enumerate().position(|(i, b)| *b != 0xE0 | (i as u8 & 0x0f)) {
+          ENG.with(|e| e.borrow_mut().viol.push(V { class: "corrupt".into(), sig: "corrupt:reserved-prefix".into(), msg: format!("byte {} of the reserved prefix changed to {:#04x}", i, rs[i]) }));
+        }
       }
       if o.drain && !aborted {
         drain(a, &sh);
